@@ -267,6 +267,17 @@ func TestVerifC18RefWeight(t *testing.T) {
 						"input.TxWeightEstimator %d", n, k.name,
 						ch.name, got, twe.Weight())
 				}
+
+				// Aux mode: one more P2TR output (the aux sweeper's
+				// extra output) is c18ExtraOutWeight.
+				twe.AddOutput(c18ExtraPk)
+				if got+c18ExtraOutWeight != int64(twe.Weight()) {
+					t.Fatalf("%d x %s -> %s + extra output: "+
+						"reference weight %d, "+
+						"input.TxWeightEstimator %d", n, k.name,
+						ch.name, got+c18ExtraOutWeight,
+						twe.Weight())
+				}
 			}
 		}
 	}
